@@ -2879,3 +2879,23 @@ CASES += [
                     RealSemiring(true_ub.0 * low_w.0 / high_w.0)
                 };"""),
 ]
+
+CASES += [
+    # ------------------------------------------------------------------ round 11
+    dict(name="sp2-sdd-clear-skips-complemented-binary", file=RS, rule="SP", props=["C10"], expect="SddPtr::clear_scratch:every-node-variant",
+         old="""            BDD(bdd) | ComplBDD(bdd) => bdd.clear_scratch(),""",
+         new="""            BDD(bdd) => bdd.clear_scratch(),
+            ComplBDD(_) => {}"""),
+    dict(name="sp2-sdd-clear-split-arms-ok", file=RS, rule="SP", props=["C10"], expect=None,
+         old="""            BDD(bdd) | ComplBDD(bdd) => bdd.clear_scratch(),""",
+         new="""            BDD(bdd) => bdd.clear_scratch(),
+            ComplBDD(bdd) => bdd.clear_scratch(),"""),
+    dict(name="dp-from-sexpr-table-starts-empty", file="src/repr/logical_expr.rs", rule="DP", props=["C17", "C19"],
+         expect="from_sexpr:labels-from-variable-mapping",
+         old="""        helper(sexpr, &mapping)""",
+         new="""        let _ = &mapping;
+        helper(sexpr, &HashMap::new())"""),
+    dict(name="rh-evicted-resident-starts-one-slot-on", file=BT, rule="RH", props=["C02", "C04"], expect="displaced-from-own-slot",
+         old="""                    self.propagate(cur_itm, pos);""",
+         new="""                    self.propagate(cur_itm, (pos + 1) % self.cap);"""),
+]
